@@ -135,3 +135,35 @@ Proof.
   apply andb_prop in Er. destruct Er as [Er E3]. apply andb_prop in Er. destruct Er as [E1 E2].
   apply peqb_eq in E1. apply N.eqb_eq in E2, E3. destruct (Hall r Hr E1) as [X|X]; contradiction.
 Qed.
+
+(* ---- resume and the destination ---- *)
+(* every entry that plan_resume keeps is kept by plan_resume_d as well: looking at the destination only ever plans MORE *)
+Theorem plan_resume_d_plans_more comp dst src e : In e (plan_resume comp src) -> In e (plan_resume_d comp dst src).
+Proof.
+  unfold plan_resume, plan_resume_d. rewrite !filter_In. intros [He Hn]. split; [exact He|].
+  apply negb_true_iff in Hn. rewrite Hn. reflexivity.
+Qed.
+
+(* An entry that the resume state keeps out of the plan is one the planner itself would have skipped: leaving it out changes no
+   file of the destination.  (Default comparison, i.e. without --checksum / --ignore-times; with --size-only as well.) *)
+Theorem plan_resume_d_harmless c ds comp dst src e :
+  c_checksum c = false -> c_ignore_times c = false ->
+  In e src -> ~ In e (plan_resume_d comp dst src) ->
+  t_action (plan_entry c ds dst e) = ASkip.
+Proof.
+  intros Hck Hit He Hn. unfold plan_resume_d in Hn.
+  destruct (still_completed comp e && dest_holds dst e) eqn:E.
+  2:{ exfalso. apply Hn. apply filter_In. split; [exact He | rewrite E; reflexivity]. }
+  apply andb_prop in E. destruct E as [_ Hh]. unfold dest_holds in Hh. unfold plan_entry. cbn [t_action].
+  destruct (dst (se_path e)) as [[dc dsz dmt|]|] eqn:Ed; [| |discriminate].
+  - apply andb_prop in Hh. destruct Hh as [Hh Hm]. apply andb_prop in Hh. destruct Hh as [Hd Hs].
+    apply negb_true_iff in Hd. rewrite Hd. rewrite Hck. unfold needs_update. rewrite Hck, Hit.
+    apply N.eqb_eq in Hs. subst dsz. rewrite N.eqb_refl. cbn [negb orb]. rewrite Hm. cbn [negb].
+    destruct (c_size_only c); reflexivity.
+  - rewrite Hh. reflexivity.
+Qed.
+
+(* a listed path whose destination entry is missing, or is a file of another size or time stamp, is planned *)
+Theorem plan_resume_d_replans_when_destination_differs comp dst src e :
+  In e src -> dest_holds dst e = false -> In e (plan_resume_d comp dst src).
+Proof. intros He Hh. unfold plan_resume_d. apply filter_In. split; [exact He|]. rewrite Hh, andb_false_r. reflexivity. Qed.
